@@ -241,7 +241,7 @@ pub fn run(ctx: &Ctx) {
 	// --- 1. every Unicode scalar value as a one-character string, every type, every constructor
 	let do_scalars = ctx.replay.as_ref().map_or(true, |r| r.workload == "scalars");
 	if do_scalars {
-		let blocks: Vec<u32> = if miri { vec![0, 0x20, 0xd7, 0xff, 0x100, 0x10ff] } else { (0..0x1100).collect() };
+		let blocks: Vec<u32> = if miri { vec![0, 0xff] } else { (0..0x1100).collect() };
 		par_for(blocks.len() as u64, if miri { 1 } else { ctx.threads }, |bi| {
 			let block = blocks[bi as usize];
 			let case = CaseId::new("scalars", 0, block as u64);
@@ -272,7 +272,7 @@ pub fn run(ctx: &Ctx) {
 	let do_bytes = ctx.replay.as_ref().map_or(true, |r| r.workload == "bytes");
 	if do_bytes {
 		let case = CaseId::new("bytes", 0, 0);
-		let step = if miri { 257 } else { 1 };
+		let step = if miri { 2053 } else { 1 };
 		for u in (0..=0xffffu32).step_by(step) {
 			check_utf16(ctx, &case, (u as u16).to_be_bytes().to_vec());
 		}
@@ -290,7 +290,7 @@ pub fn run(ctx: &Ctx) {
 			check_utf32(ctx, &case, vec![0x00; len]);
 			check_utf32(ctx, &case, (0..len).map(|i| if i % 4 == 3 { 0x41 } else { 0 }).collect());
 		}
-		let step = if miri { 4099 } else { 1 };
+		let step = if miri { 65521 } else { 1 };
 		for u in (0..=0x110400u32).step_by(step) {
 			check_utf32(ctx, &case, u.to_be_bytes().to_vec());
 		}
@@ -310,7 +310,7 @@ pub fn run(ctx: &Ctx) {
 	// --- 3. random multi-character strings mixing in- and out-of-alphabet characters
 	let do_random = ctx.replay.as_ref().map_or(true, |r| r.workload == "random");
 	if do_random {
-		let n = if miri { 50 } else { ctx.scale(50_000, 3_000_000) };
+		let n = if miri { 20 } else { ctx.scale(50_000, 3_000_000) };
 		par_for(n, if miri { 1 } else { ctx.threads }, |i| {
 			if let Some(r) = &ctx.replay {
 				if r.index != i {
@@ -354,7 +354,7 @@ pub fn run(ctx: &Ctx) {
 			}
 			let max = if wide { 0x110000 } else { 0x100 };
 			let all: Vec<char> = if miri {
-				(0..0x100u32).filter_map(char::from_u32).filter(|c| kind.admits(*c)).collect()
+				(0x20..0x60u32).filter_map(char::from_u32).filter(|c| kind.admits(*c)).collect()
 			} else {
 				(0..max).filter_map(char::from_u32).filter(|c| kind.admits(*c)).collect()
 			};
@@ -387,7 +387,7 @@ pub fn run(ctx: &Ctx) {
 		let case = CaseId::new("serialise", 0, u64::MAX);
 		for kind in ALL_KINDS {
 			check_serialise(ctx, &case, &key, kind, "");
-			let long: String = std::iter::repeat('A').take(if miri { 300 } else { 70_000 }).collect();
+			let long: String = std::iter::repeat('A').take(if miri { 130 } else { 70_000 }).collect();
 			check_serialise(ctx, &case, &key, kind, &long);
 		}
 		ctx.sample(|| format!("serialise: {} chunks of up to 256 alphabet characters, each as a subject attribute (and as DNS/e-mail/URI SAN for IA5)", jobs.len()));
